@@ -164,8 +164,16 @@ class Scenario(object):
                     return dict((a, (0.0 if a in rset_ else w)) for a, w in weights.items())
                 return dict((a, w) for a, w in weights.items() if a not in rset_)
         optimiser = FixedWeightPortfolioOptimiser() if self.opt == "fixed" else EqualWeightPortfolioOptimiser(scale=float(Fraction(self.scale)))
-        pcm = PortfolioConstructionModel(self.broker, "pf", uni, sizer, optimiser, alpha_model=alpha,
-                                         risk_model=(_Risk() if self.risk != "none" else None))
+        # one construction model and one execution handler per scenario (as in a backtest); what changes between
+        # rebalances is handed over through their public attributes
+        if getattr(self, "pcm", None) is None:
+            self.pcm = PortfolioConstructionModel(self.broker, "pf", uni, sizer, optimiser, alpha_model=alpha,
+                                                  risk_model=(_Risk() if self.risk != "none" else None))
+            self.exec_handler = ExecutionHandler(self.broker, "pf", uni, submit_orders=True, execution_algo=MarketOrderExecutionAlgorithm())
+        pcm = self.pcm
+        pcm.universe, pcm.optimiser, pcm.alpha_model = uni, optimiser, alpha
+        pcm.risk_model = _Risk() if self.risk != "none" else None
+        self.exec_handler.universe = uni
         stats = {"target_allocations": []}
         res = dict(err=None)
         try:
@@ -176,7 +184,7 @@ class Scenario(object):
         res["alloc"] = stats["target_allocations"]
         if orders is not None:
             res["orders"] = [(o.asset, o.quantity, o.created_dt) for o in orders]
-            ExecutionHandler(self.broker, "pf", uni, submit_orders=True, execution_algo=MarketOrderExecutionAlgorithm())(ts(dt), orders)
+            self.exec_handler(ts(dt), orders)
             res["pending_after_submit"] = self.broker.open_orders["pf"].qsize()
             res["holdings_before_fill"] = dict((a, int(v["quantity"])) for a, v in self.broker.get_portfolio_as_dict("pf").items())
             self.broker.update(ts(next_open))
